@@ -4,16 +4,28 @@ from ..device import Device
 from ..packet import Packet
 
 
+def duplicate(packet: Packet) -> Packet:
+    """A copy of the packet whose header fields are its own: the per-hop
+    stamps and priority marks are dicts and must not be shared with the
+    original (every port and SP scheduler behind an output writes them)."""
+    dup = copy(packet)
+    dup.priorities = dict(packet.priorities)
+    dup.perhop_time = dict(packet.perhop_time)
+    return dup
+
+
 class Splitter(Device):
     def __init__(self):
         self.out1: Optional[Device] = None
         self.out2: Optional[Device] = None
 
     def put(self, packet: Packet):
+        # copy first: the first output may stamp the original as it takes it
+        dup = duplicate(packet) if self.out2 else None
         if self.out1:
             self.out1.put(packet)
         if self.out2:
-            self.out2.put(copy(packet))
+            self.out2.put(dup)
 
     def run(self, env):
         raise RuntimeError("splitter should not execute run()")
@@ -29,11 +41,13 @@ class NSplitter(Device):
             raise TypeError("N should be an interger larger than 1")
 
     def put(self, packet: Packet):
+        # copy first: the first output may stamp the original as it takes it
+        dups = [duplicate(packet) if out else None for out in self.outs[1:]]
         if self.outs[0]:
             self.outs[0].put(packet)
-        for out in self.outs[1:]:
+        for out, dup in zip(self.outs[1:], dups):
             if out:
-                out.put(copy(packet))
+                out.put(dup)
 
     def run(self, env):
         raise RuntimeError("splitter should not execute run()")
